@@ -146,6 +146,33 @@ Theorem C15_unset_cookie_expired_refuted_before_fix :
 Proof. exact unset_cookie_expired_refuted_before_fix. Qed.
 Print Assumptions C15_unset_cookie_expired_refuted_before_fix.
 
+(* ---- emission order of the jar cookies (set_cookie drops an existing Morsel first: a cookie
+   that is set again moves to the end of the Set-Cookie block; unset_cookie keeps its place) *)
+Theorem C15_emitted_cookie_order : forall f sd s o s' l,
+  (exists mt, o = EmitW mt) \/ (exists mt, o = EmitA mt) ->
+  step f sd s o = (s', OItems l) -> cookie_keys l = map fst (cookies s).
+Proof. exact emitted_cookie_order. Qed.
+Print Assumptions C15_emitted_cookie_order.
+
+Theorem C15_set_cookie_order : forall sd c a c' e,
+  set_cookie true sd c a = (c', e) ->
+  map fst c' = order_after_set (map fst c) (ca_name a) \/
+  (e <> None /\ map fst c' = filter (fun k => negb (str_eqb (ca_name a) k)) (map fst c)) \/
+  (e <> None /\ c' = c).
+Proof. exact set_cookie_order. Qed.
+Print Assumptions C15_set_cookie_order.
+
+Theorem C15_unset_cookie_order : forall f c n ss d p c',
+  unset_cookie f c n ss d p = (c', None) -> map fst c' = order_after_unset (map fst c) n.
+Proof. exact unset_cookie_order. Qed.
+Print Assumptions C15_unset_cookie_order.
+
+Theorem C15_cookie_order_oracle_sound : forall sd f c a n ss d p c',
+  (set_cookie true sd c a = (c', None) -> cookie_order_ok 0 (map fst c) (ca_name a) (map fst c') = true) /\
+  (unset_cookie f c n ss d p = (c', None) -> cookie_order_ok 1 (map fst c) n (map fst c') = true).
+Proof. exact cookie_order_oracle_sound. Qed.
+Print Assumptions C15_cookie_order_oracle_sound.
+
 (* ---- URI-bearing helpers: pure ASCII, decoding back to the original with falcon's own
    uri.decode (C10's proved model of it: all three paths = the RFC 3986 reference decoder + UTF-8
    from coq/lib/Utf8.v).  [taken_as_escaped] is the documented exception of encode_check_escaped
